@@ -518,6 +518,8 @@ def extract():
     out["sense"] = {
         "sense_key_dict": [[k, v] for k, v in ss.sense_key_dict.items()] if hasattr(ss, "sense_key_dict") else [],
         "sense_ascq_dict": [[k, v] for k, v in ss.sense_ascq_dict.items()] if hasattr(ss, "sense_ascq_dict") else [],
+        "vendor_lo": min(ss.vendor_specific_sense_asc), "vendor_hi": max(ss.vendor_specific_sense_asc),
+        "vendor_same": list(ss.vendor_specific_sense_asc) == list(ss.vendor_specific_sense_ascq),
     }
     json.dump(out, sys.stdout)
 
@@ -700,9 +702,13 @@ def emit(data):
     lines.append("def senseKeys : List (Nat × String) := [%s]" % ", ".join(
         "(%d, %s)" % (k, lean_str(v)) for k, v in data["sense"]["sense_key_dict"]))
     lines.append("")
-    lines.append("/-- keys (asc*256+ascq) of sense_ascq_dict -/")
-    ks = [k for k, _ in data["sense"]["sense_ascq_dict"]]
-    lines.append("def senseAscqKeys : List Nat := [%s]" % ", ".join(str(k) for k in ks))
+    lines.append("/-- sense_ascq_dict: (asc*256+ascq, text) -/")
+    lines.append("def senseAscq : List (Nat × String) := [")
+    lines.append(",\n".join("  (%d, %s)" % (k, lean_str(v)) for k, v in data["sense"]["sense_ascq_dict"]))
+    lines.append("]")
+    lines.append("")
+    lines.append("def vendorAscLo : Nat := %d" % data["sense"]["vendor_lo"])
+    lines.append("def vendorAscHi : Nat := %d" % data["sense"]["vendor_hi"])
     lines.append("end Gen")
     files["Sense.lean"] = "\n".join(lines) + "\n"
     return files
